@@ -231,6 +231,10 @@ fn timers_property(tier: Tier) -> i32 {
         (vec![TKind::After, TKind::At], tier.pick(8, 10)),
         (vec![TKind::At, TKind::At], tier.pick(7, 9)),
         (vec![TKind::After, TKind::At, TKind::After], tier.pick(5, 7)),
+        (vec![TKind::AtGated], 10),
+        (vec![TKind::AfterGated], 10),
+        (vec![TKind::AtGated, TKind::After], tier.pick(7, 9)),
+        (vec![TKind::AfterGated, TKind::AtGated], tier.pick(7, 8)),
     ];
     let results = mc_kit::par_map(&configs, |_, (kinds, depth)| {
         let mut st = TStats::default();
